@@ -51,10 +51,29 @@ def main(argv):
         import extract
         extract.regenerate()
         run = common.Run(pid, tier, seed)
+        # wall-clock limit of the whole run: a generator (outside the per-call watchdog) that drives the library into a loop
+        # must not hang the check forever
+        import signal
+        import threading
+        limit = float(os.environ.get('VERIF_WALL_LIMIT', '1800' if tier == 'quick' else '7200'))
+
+        def _expired(signum, frame):
+            raise common.RunAborted(f'wall-clock limit of {limit:.0f} s reached')
+        signal.signal(signal.SIGUSR1, _expired)
+        timer = threading.Timer(limit, lambda: os.kill(os.getpid(), signal.SIGUSR1))
+        timer.daemon = True
+        timer.start()
         try:
             return mod.check(run)
         except common.InfraError:
             raise
+        except common.RunAborted as e:
+            print(f'[{pid}] run ended early: {e}')
+            rc = run.finish(rule='run ended early (' + str(e) + '); the cases counted here were judged',
+                            assumptions=['aborted run: later streams were not reached'],
+                            checker_cmd='cd lean && lake build && lake env lean .lake/audit/%s.lean' % pid)
+            # a limit reached without anything to report is a time-out (exit 2), never a clean verdict
+            return rc if rc != 0 else 2
         except Exception as e:  # noqa
             # A generator (not a protected case) hit an exception.  If it was raised *inside the library* — the generators only
             # make calls that are valid on the unchanged tree — or if violations were already recorded, this is a verdict
@@ -76,6 +95,8 @@ def main(argv):
             return run.finish(rule='run aborted by an exception in a generator after the cases counted here; see the violation',
                               assumptions=['aborted run: later streams were not reached'],
                               checker_cmd='cd lean && lake build && lake env lean .lake/audit/%s.lean' % pid)
+        finally:
+            timer.cancel()
     except common.InfraError as e:
         print(f'INFRA-ERROR {pid}: {e}')
         return 2
